@@ -873,6 +873,9 @@ func decInferLen(clen int, maxlen, unit uint) (n uint) {
 	}
 	if clen < 0 {
 		// if unspecified, return 64 for bytes, ... 8 for uint64, ... and everything else
+		if unit == 0 { // zero-size elements (e.g. struct{}, [0]T): do not divide by zero
+			return minLenIfUnset
+		}
 		return max(64/unit, minLenIfUnset)
 	}
 	if unit == 0 {
